@@ -35,8 +35,9 @@ package openid
 // ---------------------------------------------------------------- C14: ID token generation
 //@ interface jwt.Signer.Generate
 //@ spec func decoded(s jwt.Signer, t string) *jwt.Token
+//@ spec func decode_err(s jwt.Signer, t string) error
 //@ interface jwt.Signer.Decode
-//@   ensures result == decoded(recv, token)
+//@   ensures result == decoded(recv, token) && err == decode_err(recv, token) && (err == nil ==> result != nil)
 //@ func (*jwt.ValidationError).Has
 //@   pure
 //@ func (*jwt.IDTokenClaims).ToMapClaims
